@@ -213,6 +213,8 @@ func c12Sim(in *c12SimIn, res map[string]any) {
 	// fast paths with application idle gaps: the pacer's rate (bytes/s) x the time since the last packet (ns) is an int64
 	// product in Pacer.Budget; idleResumes = [gap ms, rate, floor(rate*gap / 2^63)] at every resume after an idle interval
 	// (odd third component = the product has wrapped to a negative value)
+	nMidSeen := 0
+	crng := rand.New(rand.NewSource(in.Seed ^ 0x0c10e5))
 	nBigClones := 0 // copies of a sampler whose ring has grown beyond 4096 slots (very fast paths): bounded
 	lastAnySent := int64(-1)
 	wasIdle := false
@@ -463,10 +465,14 @@ func c12Sim(in *c12SimIn, res map[string]any) {
 				consistent = false
 			}
 		}
+		maxGone := int64(-1)
+		for pn := range gone {
+			maxGone = max(maxGone, pn)
+		}
 		keep := outstanding[:0]
 		found := 0
 		for _, p := range outstanding {
-			if gone[p.pn] {
+			if p.pn <= maxGone && gone[p.pn] {
 				found++
 			} else {
 				keep = append(keep, p)
@@ -483,8 +489,15 @@ func c12Sim(in *c12SimIn, res map[string]any) {
 		bestBefore := b.maxBandwidth.GetBest()
 		totA0, totL0 := b.sampler.TotalBytesAcked(), b.sampler.TotalBytesLost()
 		var clone *bandwidthSampler // (only needed for a dumped event; copying the rings on every event is what a fast path cannot afford)
-		bigRing := len(b.sampler.connectionStateMap.entries.ring) > 4096
-		if len(dumps) < in.DumpMax+8 && (!bigRing || nBigClones < 48) {
+		ringLen := len(b.sampler.connectionStateMap.entries.ring)
+		bigRing := ringLen > 4096
+		// rings of 512..4096 slots (10^2..10^3 packets in flight: 10..250 MB/s paths run for tens of seconds): the first 400
+		// events are cloned, then every 128th on average (own generator: the history and the other samplers are unaffected)
+		midRing := ringLen > 512 && !bigRing
+		if midRing {
+			nMidSeen++
+		}
+		if len(dumps) < in.DumpMax+8 && (!bigRing || nBigClones < 48) && (!midRing || nMidSeen <= 400 || crng.Intn(128) == 0) {
 			if bigRing {
 				nBigClones++
 			}
@@ -619,7 +632,7 @@ func c12Sim(in *c12SimIn, res map[string]any) {
 			}
 			var lost []*c12Pkt
 			for _, p := range outstanding {
-				if isAcked[p.pn] || p.pn > largestAcked {
+				if p.pn > largestAcked || isAcked[p.pn] {
 					continue
 				}
 				if largestAckedIdx-p.idx >= 3 || p.sent <= now-lossDelay {
